@@ -515,6 +515,11 @@ func (e *Engine) checkInvariant(fr *Frame, st *State, ord int, inv []*Clause, wh
 		}
 		g, note := ctx.goal(cl.E)
 		name := fmt.Sprintf("%s/inv%d.%s%s#%d", e.curFn, ord, which, fr.callPath, cl.Ord)
+		if note != "" && e.dropHints[funcKey(fr.fn)] {
+			// a proof hint that names something the code no longer has: not used (rebind.go)
+			e.addObl(st, name, "inv", cl.Tags, TTrue, "loop invariant ("+which+"): "+cl.Text+" [hint not used: it names a local the code no longer has]", fmt.Sprintf("%s:%d", shortFile(cl.File), cl.Line))
+			continue
+		}
 		e.addObl(st, name, "inv", cl.Tags, g, "loop invariant ("+which+"): "+cl.Text+note, fmt.Sprintf("%s:%d", shortFile(cl.File), cl.Line))
 	}
 }
@@ -524,6 +529,11 @@ func (e *Engine) assumeInvariant(fr *Frame, st *State, ord int, inv []*Clause) {
 	for _, cl := range inv {
 		if cl.Case != 0 && cl.Case != e.curCase {
 			continue
+		}
+		if e.dropHints[funcKey(fr.fn)] {
+			if _, note := ctx.goal(cl.E); note != "" {
+				continue
+			}
 		}
 		ctx.assume(cl.E)
 	}
